@@ -509,6 +509,7 @@ class Cfg:
         self.allow_This = True
         self.rich_defaults = True
         self.digit_names = True
+        self.unique_names = False
         self.__dict__.update(kw)
 
 
@@ -517,6 +518,7 @@ class Gen:
         self.rng = rng
         self.cfg = cfg or Cfg()
         self.counter = 0
+        self.in_class = False
 
     # --- names
     def uniq(self, base):
@@ -542,8 +544,10 @@ class Gen:
             return [], self.rng.choice(tparams)
         if tparams and r < 0.42:
             return [self.rng.choice(tparams)], self.rng.choice(["Value", "Type", "Jacobian"])
-        if self.cfg.allow_This and r < 0.47:
+        if self.cfg.allow_This and self.in_class and r < 0.47:
             return [], "This"
+        if self.cfg.allow_This and self.in_class and r < 0.50:
+            return ["This"], self.rng.choice(["Sub", "Value"])
         ns = [self.nsname() for _ in range(self.rng.choice([0, 0, 0, 1, 1, 2]))]
         return ns, self.cname()
 
@@ -699,8 +703,18 @@ class Gen:
         return Member('op', ret=Ret(Ty([], cname, None, rng.random() < 0.2, '', False)), sym=sym, args=[a])
 
     def gen_class(self):
+        self.in_class = True
+        try:
+            return self._gen_class()
+        finally:
+            self.in_class = False
+
+    def _gen_class(self):
         rng = self.rng
         name = self.cname()
+        if self.cfg.unique_names:
+            self.counter += 1
+            name = "%s%d" % (name, self.counter)
         tmpl = self.gen_tmpl() if rng.random() < self.cfg.p_template else None
         ctp = [p.name for p in tmpl] if tmpl else []
         parent = None
@@ -771,3 +785,53 @@ def fix_pair_shape(t: Ty):
     the generator therefore never emits that shape as a single templated return type"""
     return (t.params is not None and len(t.params) == 2 and t.name == 'pair' and t.ns in ([], ['std'])
             and not t.const and not t.suffix and all(p.params is None for p in t.params))
+
+
+# ------------------------------------------------------------------ coherent modules (instantiable)
+def walk_namespaces(content, path=()):
+    """yield (path, content_list) for the module and every namespace"""
+    yield path, content
+    for d in content:
+        if d.kind == 'ns':
+            yield from walk_namespaces(d.content, path + (d.name,))
+
+
+def typedef_targets(m):
+    out = []
+    for path, content in walk_namespaces(m):
+        for d in content:
+            if d.kind == 'cls' and d.cls.tmpl:
+                out.append((path, d.cls.name, len(d.cls.tmpl), 'cls'))
+            elif d.kind == 'func' and d.tmpl:
+                out.append((path, d.name, len(d.tmpl), 'func'))
+            elif d.kind == 'fwd':
+                out.append((path, d.tn.name, None, 'fwd'))
+    return out
+
+
+def gen_module_inst(g: Gen, n_typedefs=None, p_bad_arity=0.03, p_missing=0.03):
+    """a module whose typedefs refer to declared templates (in any namespace, before or after),
+    so that instantiation mostly succeeds; a small share of lookups fails on purpose"""
+    rng = g.rng
+    g.cfg.allow_typedef = False
+    g.cfg.unique_names = True
+    m = g.gen_module()
+    targets = typedef_targets(m)
+    spaces = list(walk_namespaces(m))
+    if n_typedefs is None:
+        n_typedefs = rng.randint(0, 4)
+    for _ in range(n_typedefs):
+        if not targets:
+            break
+        path, name, arity, kind = rng.choice(targets)
+        n = arity if arity is not None else rng.choice([1, 2])
+        if rng.random() < p_bad_arity:
+            n = n + 1
+        if rng.random() < p_missing:
+            name = name + "Missing"
+        tn = TN(list(path), name, [g.gen_inst(1) for _ in range(n)])
+        g.counter += 1
+        d = Decl('typedef', tn=tn, new_name="%sTd%d" % (name, g.counter))
+        _, content = rng.choice(spaces)
+        content.insert(rng.randint(0, len(content)), d)
+    return m
